@@ -13,18 +13,23 @@ Definition src_request_core (cf : config) (buf : list N) (rq : request) (arr : l
                 (g_request_core_init (q_method rq) (q_path rq) (q_version rq) (q_hdrs rq) arr arr)
                 (cur_new buf)).
 (* Request::parse_with_config as TRANSLATED (take self.headers, cast, call the core, restore unless Complete); the
-   remaining one-line delegations (parse, ParserConfig::parse_request, the *_with_uninit_headers pair, new) are
-   pinned by their token text: LibApi.wrappers_pinned *)
+   one-expression delegations (parse, ParserConfig::parse_request, the *_with_uninit_headers pair) are translated as
+   well (G14: the gd_ definitions of LibApi.v); only the constructor `new` and the ParserConfig struct are pinned by their token text:
+   LibApi.wrappers_pinned *)
 Definition src_request_with_config (cf : config) (buf : list N) (rq : request) : rq_res :=
   fin_reqw (ifun (g_request_with_config_body E (S (length buf)) cf buf)
                  (g_request_with_config_init (q_method rq) (q_path rq) (q_version rq) (q_hdrs rq) [] [])
                  (cur_new buf)).
 Definition src_request_call (e : entry) (cf : config) (buf : list N) (arr : list slot) (rq : request) : rq_res :=
+  (* the four public routes, each through its one-expression delegation AS TRANSLATED (G14): Request::parse,
+     ParserConfig::parse_request, Request::parse_with_uninit_headers, ParserConfig::parse_request_with_uninit_headers *)
+  let Xw := src_request_with_config in
+  let Xc := src_request_core in
   match e with
-  | EParse => src_request_with_config config_default buf rq
-  | EConfig => src_request_with_config cf buf rq
-  | EUninit => src_request_core config_default buf rq arr
-  | EConfigUninit => src_request_core cf buf rq arr
+  | EParse => gd_request_parse Xw Xc buf rq
+  | EConfig => gd_parse_request Xw Xc cf buf rq
+  | EUninit => gd_request_parse_with_uninit_headers Xw Xc buf rq arr
+  | EConfigUninit => gd_parse_request_with_uninit_headers Xw Xc cf buf rq arr
   end.
 Hypothesis Efwd : env_fwd E.
 
@@ -32,7 +37,9 @@ Lemma src_request_core_eq cf buf rq arr : src_request_core cf buf rq arr = reque
 Proof. apply tie_request_core. exact Efwd. Qed.
 Lemma src_request_call_eq e cf buf arr rq : src_request_call e cf buf arr rq = request_call E e cf buf arr rq.
 Proof.
-  destruct e; cbn [src_request_call request_call]; unfold src_request_with_config;
+  destruct e; cbn [src_request_call request_call];
+    unfold gd_request_parse, gd_parse_request, gd_request_parse_with_uninit_headers, gd_parse_request_with_uninit_headers,
+      src_request_with_config;
     rewrite ?src_request_core_eq, ?(tie_request_with_config E Efwd); reflexivity.
 Qed.
 End Src.
